@@ -511,9 +511,9 @@ fn credit_case(seed: u64, trace: bool) -> CaseOut {
 pub fn run(ctx: &Ctx) -> i32 {
     let t = Instant::now();
     let mut rep = Report::default();
-    let g = Group { name: "limit-probes", cases: ctx.tier.pick(20_000, 600_000), budget_s: ctx.tier.pick(35.0, 900.0), exhaustive: false };
+    let g = Group { name: "limit-probes", cases: ctx.tier.pick(20_000, 600_000), budget_s: ctx.tier.pick(35.0, 540.0), exhaustive: false };
     run_group(ctx, &mut rep, &g, |_, seed, trace| case(seed, trace));
-    let g = Group { name: "credit", cases: ctx.tier.pick(1200, 40_000), budget_s: ctx.tier.pick(25.0, 600.0), exhaustive: false };
+    let g = Group { name: "credit", cases: ctx.tier.pick(1200, 40_000), budget_s: ctx.tier.pick(25.0, 360.0), exhaustive: false };
     run_group(ctx, &mut rep, &g, |_, seed, trace| credit_case(seed, trace));
     finish(
         ctx,
